@@ -29,6 +29,22 @@ CLASSICS = ["' OR 1=1 --", "'; DROP TABLE canary; --", "\\'", "%' --", "' UNION 
             "\\' OR 1=1 --", "''", "' || (SELECT 1) || '", "%_\\%\\_", "\u2019 OR 1=1 --"]
 META = set("'\"\\%_-;/*\x00\n\u2019\u02bc()|")
 
+
+def confusables():
+    """every BMP character that some Unicode normalisation form or case mapping turns into a string containing a SQL/LIKE
+    metacharacter (e.g. U+FF07 FULLWIDTH APOSTROPHE -> ' under NFKC): a translation that normalises AFTER escaping lets these out"""
+    import unicodedata
+    targets = set("'\"\\%_-;/*|")
+    out = []
+    for cp in range(0x80, 0x10000):
+        if 0xD800 <= cp <= 0xDFFF:
+            continue
+        c = chr(cp)
+        forms = {unicodedata.normalize(f, c) for f in ("NFC", "NFD", "NFKC", "NFKD")} | {c.lower(), c.upper(), c.casefold()}
+        if any(set(f) & targets for f in forms if f != c):
+            out.append(c)
+    return out
+
 DIALECTS = {"standard": AstToSqlVisitor, "sqlite": AstToSqliteSqlVisitor, "athena": AstToAthenaSqlVisitor}
 _lx, _ps = ODataLexer(), ODataParser()
 _H = None
@@ -220,7 +236,8 @@ def payloads(k):
     for n in range(k + 1):
         for tup in product(SIGMA, repeat=n):
             out.append("".join(tup))
-    return out + CLASSICS
+    conf = confusables()
+    return out + CLASSICS + conf + ["zz" + c + " OR 1=1 --" for c in conf[::3]]
 
 
 def run(ctx):
